@@ -70,6 +70,8 @@ macro_rules! slice_harnesses {
                     assert!(d.len() == 0);
                     assert!(back.as_ptr() as usize != 0 && (back.as_ptr() as usize) % core::mem::align_of::<T>() == 0,
                             "C16: NULL view must become a valid empty slice");
+                    assert!(d.as_ptr() as usize != 0 && (d.as_ptr() as usize) % core::mem::align_of::<T>() == 0,
+                            "C16: NULL view must deref to a valid empty slice");
                 } else {
                     assert!(back.len() == len && d.len() == len);
                     assert!(back.as_ptr() == arr.as_ptr());
@@ -148,10 +150,15 @@ macro_rules! slice_harnesses {
                 };
                 let mut v: DiplomatSliceMut<T> = unsafe { core::mem::transmute_copy(&raw) };
                 let dl = (&*v).len();
+                let dp = (&*v).as_ptr() as usize;
                 let dml = (&mut *v).len();
+                let dmp = (&mut *v).as_mut_ptr() as usize;
                 let back: &mut [T] = v.into();
                 if null {
                     assert!(back.len() == 0 && dl == 0 && dml == 0);
+                    let al = core::mem::align_of::<T>();
+                    assert!(dp != 0 && dp % al == 0 && dmp != 0 && dmp % al == 0 && back.as_ptr() as usize != 0 && (back.as_ptr() as usize) % al == 0,
+                            "C16: NULL mutable view must become / deref to a valid empty slice");
                 } else {
                     assert!(back.len() == len && dl == len && dml == len);
                     let mut i = 0;
@@ -320,8 +327,11 @@ fn str_null_from_c() {
     let v: DiplomatUtf8StrSlice = unsafe { core::mem::transmute_copy(&raw) };
     let d: &str = &*v;
     assert!(d.len() == 0);
+    // "accepted as the empty slice": a &str is a reference, its data pointer is never NULL
+    assert!(!d.as_ptr().is_null(), "C16: NULL string view must deref to a valid (non-null) empty &str");
     let back: &str = v.into();
     assert!(back.len() == 0);
+    assert!(!back.as_ptr().is_null(), "C16: NULL string view must convert to a valid (non-null) empty &str");
 }
 
 #[kani::proof]
@@ -364,10 +374,12 @@ fn owned_str_null_from_c() {
     let o: DiplomatOwnedUTF8StrSlice = unsafe { core::mem::transmute_copy(&raw) };
     let d: &str = &*o;
     assert!(d.len() == 0);
+    assert!(!d.as_ptr().is_null(), "C16: NULL owned string view must deref to a valid (non-null) empty &str");
     let keep: bool = kani::any();
     if keep {
         let back: Box<str> = o.into();
         assert!(back.len() == 0);
+        assert!(!back.as_ptr().is_null(), "C16: NULL owned string view must become a valid (non-null) empty Box<str>");
     } else {
         drop(o);
     }
